@@ -5,6 +5,10 @@
 import Gts.Lemmas.Delete
 import Gts.Model.Seq
 import Gts.Model.GbSlice
+import Gts.Lemmas.Bounds
+import Gts.Lemmas.Window
+import Gts.Lemmas.Record
+import Gts.Props.C04
 namespace Gts.C03
 open Gts Loc
 
@@ -93,6 +97,24 @@ theorem point_del_collapse (p i k : Int) (h1 : i ≤ p) (h2 : p < i + k) :
   simp only [expand, pointExpand]
   rw [if_pos (by omega)]
 
+/-- **no resulting location refers to a position outside the new sequence**: deleting `[i, i+k)`
+from a sequence of length `L` maps every location whose coordinates lie in `[0, L]` to one whose
+coordinates lie in `[0, L-k]` — every kind, nesting and arity, no guard (Join only copies
+coordinates). -/
+theorem expand_del_inside (L i k : Int) (hi : 0 ≤ i) (hk : 0 < k) (hL : i + k ≤ L) (l : Loc)
+    (h : coordsAll (inB 0 L) l = true) : coordsAll (inB 0 (L - k)) (expand l i (-k)) = true :=
+  expand_del_coords L i k hi hk hL l h
+
+/-- **Slice, every location kind**: on a forward window `[a, b)` of a sequence of length `L` the
+re-located feature (`Expand(b, b-L)` then `Expand(0, -a)`, see `slice_feats_fwd`) denotes exactly
+its former residues inside the window, re-based to the window start, in the same order and on
+the same strand — provided K2 does not fire in either step. -/
+theorem slice_den_partial (l : Loc) (a b L : Int) (h0 : 0 ≤ a) (hab : a ≤ b) (hbL : b ≤ L)
+    (hw : wf l = true) (hpos : ∀ p ∈ den l, 0 ≤ p.1 ∧ p.1 < L)
+    (g1 : expandAbs l b (b - L) = false) (g2 : expandAbs (l.expand b (b - L)) 0 (-a) = false) :
+    den ((l.expand b (b - L)).expand 0 (-a)) ≼ filterMapPos (winMap a b) (den l) :=
+  (sliceLoc_den l a b L h0 hab hbL hw hpos g1 g2).1
+
 /-- well-formedness is preserved -/
 theorem expand_del_wf (l : Loc) (i k : Int) (hw : wf l = true) (hk : 0 < k) :
     wf (expand l i (-k)) = true := (expand_del l i k hw hk).2
@@ -132,5 +154,99 @@ theorem sliceRefs_renumbered (pref : Pars.Bytes) (a b : Int) (refs out : List Re
 example : wf (compl (joined [ranged 2 5 true false, point 7, ranged 9 12 false true])) = true ∧
     expandAbs (compl (joined [ranged 2 5 true false, point 7, ranged 9 12 false true])) 4 (-4) = false := by
   decide
+
+/-! ### record level: what `gts.Delete` / `gts.Erase` / `gts.Slice` do to every feature -/
+
+/-- **Delete, record level**: every feature survives with unchanged key and qualifiers, and its
+location denotes exactly its former residues minus the removed ones, re-based. -/
+theorem delete_feature_partial (s : Seq) (i k : Int) (hk : 0 < k) (f : Feature) (hf : f ∈ s.feats)
+    (hw : wf f.loc = true) (hk2 : expandAbs f.loc i (-k) = false) :
+    ∃ f' ∈ (s.delete i k).feats, f'.key = f.key ∧ f'.props = f.props ∧
+      den f'.loc ≼ filterMapPos (delMap i k) (den f.loc) := by
+  refine ⟨{ f with loc := f.loc.expand i (-k) }, ?_, rfl, rfl, expand_del_partial f.loc i k hw hk hk2⟩
+  rw [delete_feats]; exact List.mem_map_of_mem hf
+
+/-- **Erase, record level**: a feature is dropped iff it is not a `source` and lies wholly within
+the removed region; every other feature behaves as under Delete. -/
+theorem erase_feature_partial (s : Seq) (i k : Int) (hk : 0 < k) (f : Feature) (hf : f ∈ s.feats)
+    (hkeep : f.key = "source" ∨ f.loc.within i (i + k) = false)
+    (hw : wf f.loc = true) (hk2 : expandAbs f.loc i (-k) = false) :
+    ∃ f' ∈ (s.erase i k).feats, f'.key = f.key ∧ f'.props = f.props ∧
+      den f'.loc ≼ filterMapPos (delMap i k) (den f.loc) := by
+  rw [erase_spec]
+  apply delete_feature_partial _ i k hk f _ hw hk2
+  simp only [List.mem_filter]
+  refine ⟨hf, ?_⟩
+  rcases hkeep with h | h <;> simp [h]
+
+/-- … and nothing else is dropped or added -/
+theorem erase_feature_count (s : Seq) (i k : Int) :
+    (s.erase i k).feats.length =
+      (s.feats.filter fun f => f.key = "source" || !(f.loc.within i (i + k))).length := by
+  rw [erase_spec, delete_feats]; simp
+
+/-- **Slice (forward window), record level**: a feature survives iff its location overlaps the
+window; a surviving feature keeps key and qualifiers and denotes exactly its former residues
+inside the window, re-based (`source` additionally loses its partial markers, which does not
+change what it denotes). -/
+theorem slice_fwd_feature_partial (s : Seq) (a b : Int) (h0 : 0 ≤ a) (hab : a ≤ b) (hbL : b ≤ s.len)
+    (f : Feature) (hf : f ∈ s.feats) (hov : f.loc.overlap a b = true)
+    (hw : wf f.loc = true) (hpos : ∀ p ∈ den f.loc, 0 ≤ p.1 ∧ p.1 < s.len)
+    (g1 : expandAbs f.loc b (b - s.len) = false)
+    (g2 : expandAbs (f.loc.expand b (b - s.len)) 0 (-a) = false) :
+    ∃ f' ∈ (s.slice a b).feats, f'.key = f.key ∧ f'.props = f.props ∧
+      den f'.loc ≼ filterMapPos (winMap a b) (den f.loc) := by
+  rw [slice_feats_fwd s a b h0 hab]
+  refine ⟨_, List.mem_map_of_mem (List.mem_filter.mpr ⟨hf, hov⟩), rfl, rfl, ?_⟩
+  have h := slice_den_partial f.loc a b s.len h0 hab hbL hw hpos g1 g2
+  by_cases hs : f.key = "source"
+  · simp only [hs, if_true, den_asComplete]; exact h
+  · simp only [hs, if_false]; exact h
+
+/-- every feature of a forward slice comes from a feature overlapping the window -/
+theorem slice_fwd_feature_origin (s : Seq) (a b : Int) (h0 : 0 ≤ a) (hab : a ≤ b)
+    (f' : Feature) (hf' : f' ∈ (s.slice a b).feats) :
+    ∃ f ∈ s.feats, f.loc.overlap a b = true ∧ f'.key = f.key ∧ f'.props = f.props := by
+  rw [slice_feats_fwd s a b h0 hab] at hf'
+  obtain ⟨f, hf, rfl⟩ := List.mem_map.mp hf'
+  obtain ⟨hm, ho⟩ := List.mem_filter.mp hf
+  exact ⟨f, hm, ho, rfl, rfl⟩
+
+/-- **Slice, wrap-around window** (`end < start`): the record is first rotated so that the window
+starts at 0, then cut forward … -/
+theorem slice_wrap_eq (s : Seq) (a b : Int) (ha : 0 ≤ a) (hb : 0 ≤ b) (hba : b < a) :
+    s.slice a b = Seq.sliceFwd (s.rotate (-a)) 0 (s.len - a + b) := by
+  unfold Seq.slice
+  simp only [show ¬ a < 0 by omega, show ¬ b < 0 by omega, hba, if_false, if_true]
+
+/-- … so its residues are `seq[start:] ++ seq[:end]` -/
+theorem slice_bytes_wrap (s : Seq) (a b : Int) (hb : 0 ≤ b) (hba : b < a) (haL : a ≤ s.len) :
+    (s.slice a b).bytes = s.bytes.drop a.toNat ++ s.bytes.take b.toNat := by
+  have hL : 0 < s.len := by omega
+  rw [slice_wrap_eq s a b (by omega) hb hba]
+  unfold Seq.sliceFwd
+  simp only [C04.rotate_bytes_eq, C04.rotN_eq_emod _ _ hL]
+  have hlen : (s.bytes.length : Int) = s.len := rfl
+  by_cases haeq : a = s.len
+  · subst haeq
+    have : (-s.len) % s.len = 0 := by simp
+    rw [this]
+    simp only [Int.sub_zero, Int.toNat_zero, List.drop_zero]
+    have h1 : s.len.toNat = s.bytes.length := by omega
+    rw [h1]
+    simp
+  · have hr : (-a) % s.len = s.len - a := by
+      have : -a = (s.len - a) + (-1) * s.len := by omega
+      rw [this, Int.add_mul_emod_self_right, Int.emod_eq_of_lt (by omega) (by omega)]
+    rw [hr]
+    have e1 : (s.len - (s.len - a)).toNat = a.toNat := by congr 1; omega
+    rw [e1]
+    rw [Int.toNat_zero, List.drop_zero, List.take_append]
+    have hdl : (List.drop a.toNat s.bytes).length = s.bytes.length - a.toNat := by simp
+    have e2 : (s.len - a + b - 0).toNat - (List.drop a.toNat s.bytes).length = b.toNat := by
+      rw [hdl]; omega
+    rw [e2, List.take_of_length_le (by rw [hdl]; omega), List.take_take]
+    congr 2
+    omega
 
 end Gts.C03
